@@ -8,6 +8,7 @@
 #include <nitro/lang/fixed_vector.hpp>
 #include <nitro/lang/reverse.hpp>
 
+#include <algorithm>
 #include <array>
 #include <deque>
 #include <list>
@@ -54,6 +55,28 @@ static std::string fin(const Out& o, const std::string& aft)
 {
     return "seen=" + (o.seen.empty() ? std::string("_") : o.seen) + " after=" + aft;
 }
+
+// For lvalue ranges (const or not) the visited values are the container's own elements: same addresses,
+// in iteration order (reversed for reverse()).
+struct Alias
+{
+    std::vector<const void*> seen;
+    template <typename T>
+    void add(const T& x)
+    {
+        seen.push_back(static_cast<const void*>(std::addressof(x)));
+    }
+    template <typename C>
+    std::string verdict(const C& c, bool reversed) const
+    {
+        std::vector<const void*> own;
+        for (const auto& x : c)
+            own.push_back(static_cast<const void*>(std::addressof(x)));
+        if (reversed)
+            std::reverse(own.begin(), own.end());
+        return own == seen ? "" : " NOALIAS(the loop did not visit the container's own elements)";
+    }
+};
 
 static int val_of(int x)
 {
@@ -128,26 +151,40 @@ static std::string run_generic(const std::string& ad, const std::string& cat, bo
     {
         if (cat == "lv")
         {
+            Alias al;
             for (auto p : nitro::lang::enumerate(c))
             {
                 o.add(p.index(), val_of(p.value()), true);
+                if constexpr (std::is_reference<decltype(p.value())>::value)
+                    al.add(p.value());
                 if constexpr (std::is_same<decltype(p.value()), int&>::value)
                 {
                     if (write)
                         p.value() += 100;
                 }
             }
+            std::string av;
+            if constexpr (std::is_reference<decltype((*nitro::lang::enumerate(c).begin()).value())>::value)
+                av = al.verdict(c, false);
             if constexpr (std::is_same<typename C::value_type, int>::value)
-                return fin(o, after(c));
+                return fin(o, after(c)) + av;
             else
-                return fin(o, orig);
+                return fin(o, orig) + av;
         }
         if (cat == "const")
         {
             const C& cc = c;
+            Alias al;
             for (auto p : nitro::lang::enumerate(cc))
+            {
                 o.add(p.index(), val_of(p.value()), true);
-            return fin(o, orig);
+                if constexpr (std::is_reference<decltype(p.value())>::value)
+                    al.add(p.value());
+            }
+            std::string av;
+            if constexpr (std::is_reference<decltype((*nitro::lang::enumerate(cc).begin()).value())>::value)
+                av = al.verdict(cc, false);
+            return fin(o, orig) + av;
         }
         C tmp = c;
         for (auto p : nitro::lang::enumerate(std::move(tmp)))
@@ -158,26 +195,33 @@ static std::string run_generic(const std::string& ad, const std::string& cat, bo
     {
         if (cat == "lv")
         {
+            Alias al;
             for (auto& x : nitro::lang::reverse(c))
             {
                 o.add(0, val_of(x), false);
+                al.add(x);
                 if constexpr (std::is_same<decltype(x), int&>::value)
                 {
                     if (write)
                         x += 100;
                 }
             }
+            std::string av = al.verdict(c, true);
             if constexpr (std::is_same<typename C::value_type, int>::value)
-                return fin(o, after(c));
+                return fin(o, after(c)) + av;
             else
-                return fin(o, orig);
+                return fin(o, orig) + av;
         }
         if (cat == "const")
         {
             const C& cc = c;
+            Alias al;
             for (auto& x : nitro::lang::reverse(cc))
+            {
                 o.add(0, val_of(x), false);
-            return fin(o, orig);
+                al.add(x);
+            }
+            return fin(o, orig) + al.verdict(cc, true);
         }
         C tmp = c;
         for (auto& x : nitro::lang::reverse(std::move(tmp)))
